@@ -192,6 +192,13 @@ def run_model_and_steps(chk, prop, tier, pkey=None):
             chk.add_tlc(res, "YkConc6 config %s: interior split + new root, parent change under lock_parent, vs readers (LinOK, ParentOK, Quiescent, Termination under WF)" % cfg)
             if not res.ok:
                 chk.error("YkConc6 model check %s did not pass (says nothing about the code): %s" % (cfg, tlc_tail(res, 12)))
+        # two interior levels (YkConc7): collapse of a non-root interior (swap_child, the grandparent's version does not change) vs split of the
+        # survivor vs descents; collapse of the root interior; both collapses at once
+        for cfg in (["a", "c", "e"] if tier == "quick" else ["a", "b", "c", "d", "e", "f", "g"]):
+            res = tlc("MC_Conc7", "MC_Conc7_%s.cfg" % cfg, workers=8, timeout=1500)
+            chk.add_tlc(res, "YkConc7 config %s: two interior levels, collapse of an inner interior / of the root / of both vs split vs descents (LinOK, SwapOK, RootOpsOK, Quiescent, Termination under WF)" % cfg)
+            if not res.ok:
+                chk.error("YkConc7 model check %s did not pass (says nothing about the code): %s" % (cfg, tlc_tail(res, 12)))
         run_steps2(chk, prop, tier, pk)
         run_steps3(chk, prop, tier, pk)
         run_steps4(chk, prop, tier, pk)
